@@ -17,7 +17,7 @@ ENGINES = {
     "C09": ("eng_stack", "proof"),
     "C14": ("eng_text", "proof"),
     "C18": ("eng_pratt", "proof"),
-    "C01": ("eng_core", "other"),
+    "C01": ("eng_core", "proof"),
     "C02": ("eng_core", "other"),
     "C03": ("eng_core", "proof"),
     "C04": ("eng_core", "other"),
